@@ -40,6 +40,9 @@ def run(ctx):
     check_ws_agreement(ctx)
     check_strip_semicolon(ctx)
     RL.check_singleton_lock(ctx, 'R4.6')
+    # every rule above reads the lexer through its tables; that the scan loop applies them faithfully is decided by interpretation
+    ctx.rule('R4.S', 'Lexer.get_tokens interpreted on short texts agrees token by token with the rule-table model the other rules use', floor=1)
+    RL.check_scan_semantics(ctx, 'R4.S')
     ctx.rule('R4.7', 'per-statement state of the splitter is completely reset (a piece re-split alone sees the same state)', floor=7)
     RS.check_reset_completeness(ctx, 'R4.7')
     ctx.rule('R4.8', 'driver order: a token is classified and the end-of-statement test evaluated after the reset of the previous statement (a piece re-split alone behaves the same)', floor=2)
